@@ -11,7 +11,7 @@ class WorkersFamily(Family):
     trusted = ["blocking facts read off the source by tools/extract (select arms, Go routines closing the file / racing the open, joins, return nil) and the meaning the automata give them",
                "closing an os.File on a FIFO unblocks a pending Read; select takes a ready ctx.Done() arm within a bounded number of iterations; one step takes bounded time (runtime assumptions, exercised here)",
                "real FIFOs (mkfifo), real channels of the stated capacities"]
-    assumptions = ["bounded time = return within 2 s of the cancellation (measured ~100 us); deliveries are watched for 60 ms after the return",
+    assumptions = ["bounded time = return within 4 s of the cancellation (measured ~100 us); deliveries are watched for 60 ms after the return",
                    "observation R:<returned>:<late deliveries>:<non-nil error>:<was blocked when cancelled>"]
     rule = "each worker (audit pipe ingester, sshd pipe ingester, audit processor) in each blocking state (waiting for a writer, reading an idle pipe, handing downstream with the buffer empty / partly filled / full and no consumer, unready correlator, processor idle / busy on a long queue), capacities 0,1,4 (thorough: up to 10000), repeated; every case is non-trivial"
 
@@ -72,7 +72,7 @@ class DaemonFamily(Family):
     driver_args = ["daemon"]
     uses_gen = ("namedpipe", "auditlog", "syslog", "sshdprocessor", "auditd.go", "function", "main.go")
     trusted = WorkersFamily.trusted + ["process exit, signal delivery and wall-clock time are outside the model; observed on the daemon built from the working tree"]
-    assumptions = ["bounded time = exit within 5 s of the fault; load = a writer streaming audit records into the audit pipe as fast as the pipe takes them (the 10000-line buffer fills because the processor is slower than the ingester)",
+    assumptions = ["bounded time = exit within 8 s of the fault; load = a writer streaming audit records into the audit pipe as fast as the pipe takes them (the 10000-line buffer fills because the processor is slower than the ingester)",
                    "observation X:<exited>:<non-zero status>"]
     rule = "every failure cause (sshd pipe EOF, audit pipe EOF, unparsable audit line, event write failure on the sshd side (/dev/full) and on the audit side (output reader gone, correlated session), SIGTERM, SIGINT, sshd path not a FIFO, audit path not a FIFO) at idle and under sustained audit load, on the built binary; every case is non-trivial"
 
